@@ -305,13 +305,30 @@ def run(ctx):
             def via_cli(tool=tool, full=full):
                 return (cnfgen_cli if tool == 'cnfgen' else pbgen_cli)([tool] + full, mode='formula')
 
+            class TooBig(Exception):
+                pass
+
             def via_lib(lib=lib, funs=funs, fc=fc):
                 F = lib(fc)
                 for f in funs:
+                    if len(F) > 3000 or F.number_of_variables() > 400 or sum(len(c) for c in F) > 12000:
+                        raise TooBig()
                     F = f(F)
+                if len(F) > 60000:
+                    raise TooBig()
                 return F
-            a = outcome(via_cli)
-            b = outcome(via_lib)
+            if 'save' in full:
+                a = outcome(via_cli)      # the command line writes the file the library call reads
+                b = outcome(via_lib)
+            else:
+                b = outcome(via_lib)
+                if b[0] == 'exc' and b[1] == 'TooBig':
+                    ctx.tally('skipped', 'chain would be too large')
+                    continue
+                a = outcome(via_cli)
+            if b[0] == 'exc' and b[1] == 'TooBig':
+                ctx.tally('skipped', 'chain would be too large')
+                continue
             descr = dict(tool=tool, argv=full)
             if a[0] == 'ok' and b[0] == 'ok':
                 sa, sb = snap(a[1]), snap(b[1])
